@@ -33,7 +33,7 @@ CLASSES = {
 }
 
 
-def run_apalache(ctx, d, module, module_text, init, nxt, inv, timeout=300):
+def run_apalache(ctx, d, module, module_text, init, nxt, inv, timeout=900):
     """One `apalache-mc check --length=0` call on a generated module (in scratch dir d) that EXTENDS
     one of the Apa_RoundTime* modules.  Returns (outcome, state0, output), outcome in
     {"noerror", "violation", "fail"}; state0 = first state of the ITF counterexample."""
@@ -141,17 +141,6 @@ def _par(jobs, n=2):
 def run(ctx, monitors):
     q = ctx.quick
     W = int(os.environ.get("VERIF_TLC_WORKERS", "0")) or None
-    # ---- 1. design level: exhaustive TLC on the grid and on scaled-down machines
-    if os.environ.get("VERIF_DEV_SKIP_MC"):      # development only (mutation loops): the design runs do not depend on /repo
-        ctx.notes.append("design-level TLC runs skipped (VERIF_DEV_SKIP_MC)")
-        ctx.exhaustive = False
-    else:
-        ctx.model_check("MC_RoundTime", "MC_RoundTime_grid.cfg", workers=W, timeout=300)
-        ctx.model_check("MC_RoundTime", "MC_RoundTime_word8.cfg", workers=W, timeout=300)
-        ctx.model_check("MC_RoundTime", "MC_RoundTime_word10.cfg", workers=W, timeout=900)
-        if not q:
-            ctx.model_check("MC_RoundTime", "MC_RoundTime_word12.cfg", workers=W, timeout=2400)
-
     # ---- 2. vectors: TLC (grid + mid-range) ...
     cfg = os.path.join(ctx.work, "Sim_RoundTime.cfg")
     with open(cfg, "w") as fh:
@@ -185,9 +174,25 @@ def run(ctx, monitors):
             dd = ctx.sub("apalache-witness-%d-%d" % (sd, gi))
             jobs.append((lambda dd=dd, grp=grp, sd=sd: ("wit", (dd, grp), run_apalache(
                 ctx, dd, "ApaQ_RoundTime", witness_module(grp, sd), "QInit", "QNext", "NoWitness"))))
+    import concurrent.futures as cf
+    pool = cf.ThreadPoolExecutor(max_workers=3)
+    futs = [pool.submit(j) for j in jobs]      # Apalache runs while TLC explores the design configurations
+    # ---- 1. design level: exhaustive TLC on the grid and on scaled-down machines
+    if os.environ.get("VERIF_DEV_SKIP_MC"):      # development only (mutation loops): the design runs do not depend on /repo
+        ctx.notes.append("design-level TLC runs skipped (VERIF_DEV_SKIP_MC)")
+        ctx.exhaustive = False
+    else:
+        ctx.model_check("MC_RoundTime", "MC_RoundTime_grid.cfg", workers=W, timeout=300)
+        ctx.model_check("MC_RoundTime", "MC_RoundTime_word8.cfg", workers=W, timeout=300)
+        ctx.model_check("MC_RoundTime", "MC_RoundTime_word10.cfg", workers=W, timeout=900)
+        if not q:
+            ctx.model_check("MC_RoundTime", "MC_RoundTime_word12.cfg", workers=W, timeout=2400)
+
+    results = [f.result() for f in futs]
+    pool.shutdown()
     nwit = 0
     classes_seen = set()
-    for what, info, (outcome, st, out) in _par(jobs, 3):
+    for what, info, (outcome, st, out) in results:
         if what == "lemma":
             if outcome != "noerror":
                 ctx.inconclusive.append("Apalache could not establish Lemma_SmallIsExact/Lemma_Tables (%s):\n%s" % (outcome, out[-1500:]))
